@@ -154,6 +154,8 @@ pub enum Corruption {
     TextOptionWithOther,
     /// an element index that does not fit 64 bits (`.l#99999999999999999999`)
     HugeIndex(Slot, bool),
+    /// a reference to an earlier selection without its closing slash (`/n0`)
+    UnterminatedReference(Slot),
 }
 
 impl Cfg {
@@ -347,7 +349,7 @@ fn slots_of(cfg: &Cfg) -> Vec<Slot> {
 }
 
 pub fn arb_case() -> BoxedStrategy<Case18> {
-    (arb_cfg(), any::<u16>(), 0u8..17, any::<u16>(), prop::sample::select(vec!["junk", ")", "x y", "1", "(size .)", "]", "="]), prop::sample::select(vec!["UP", "DOWN", "ascending", "D", "1", "DESCC", "DESC junk", "asc )", "desc asc", "ASC 1", "desc,", "ASC ASC"]), any::<u64>(), prop::bool::weighted(0.2))
+    (arb_cfg(), any::<u16>(), 0u8..18, any::<u16>(), prop::sample::select(vec!["junk", ")", "x y", "1", "(size .)", "]", "="]), prop::sample::select(vec!["UP", "DOWN", "ascending", "D", "1", "DESCC", "DESC junk", "asc )", "desc asc", "ASC 1", "desc,", "ASC ASC"]), any::<u64>(), prop::bool::weighted(0.2))
         .prop_map(|(mut cfg, slot_pick, kind, cut, garbage, baddir, order, via_file)| {
             let slots = slots_of(&cfg);
             let slot = if slots.is_empty() {
@@ -373,6 +375,7 @@ pub fn arb_case() -> BoxedStrategy<Case18> {
                 13 => Corruption::JsonOptionWithOther,
                 14 => Corruption::TextOptionWithOther,
                 15 => Corruption::HugeIndex(slot, cut % 2 == 0),
+                16 => Corruption::UnterminatedReference(slot),
                 _ => Corruption::DanglingSeparator(slot, cut % 2 == 0),
             };
             Case18 { cfg, corruption, order, via_file }
@@ -521,6 +524,19 @@ pub fn corrupt(cfg: &Cfg, c: &Corruption) -> Option<Vec<String>> {
             a.push(format!("--set={}{}{}{}={}", pre, if m { "@" } else { "" }, n, post, e));
             Some(a)
         }
+        Corruption::UnterminatedReference(s) => {
+            if matches!(s, Slot::Set(_)) {
+                return None;
+            }
+            // at the very end of the option text, or as the last argument of a call
+            let t = match (s, cfg.slot_text(s)?.len() % 2) {
+                (Slot::Select(i), 0) => format!("(size /n0) = n{}", i),
+                (Slot::Select(_), _) => "/n0".to_string(),
+                (_, 0) => "(size /n0)".to_string(),
+                _ => "/n0".to_string(),
+            };
+            Some(cfg.args(Some((s, t))))
+        }
         Corruption::HugeIndex(s, twenty) => {
             if matches!(s, Slot::Set(_)) {
                 return None;
@@ -661,10 +677,11 @@ impl Check for C18Reject {
             Corruption::JsonOptionWithOther => "json_option_with_other_style",
             Corruption::TextOptionWithOther => "text_option_with_other_style",
             Corruption::HugeIndex(..) => "index_beyond_64_bits",
+            Corruption::UnterminatedReference(_) => "reference_without_closing_slash",
         };
         let late_slot = matches!(
             &case.corruption,
-            Corruption::UnknownFunction(s) | Corruption::ArityLow(s) | Corruption::ArityHigh(s) | Corruption::MissingParen(s) | Corruption::Truncate(s, _) | Corruption::TrailingGarbage(s, _) | Corruption::DanglingSeparator(s, _) | Corruption::UnknownContext(s) | Corruption::HugeIndex(s, _)
+            Corruption::UnknownFunction(s) | Corruption::ArityLow(s) | Corruption::ArityHigh(s) | Corruption::MissingParen(s) | Corruption::Truncate(s, _) | Corruption::TrailingGarbage(s, _) | Corruption::DanglingSeparator(s, _) | Corruption::UnknownContext(s) | Corruption::HugeIndex(s, _) | Corruption::UnterminatedReference(s)
                 if !matches!(s, Slot::Group)
         ) || matches!(&case.corruption, Corruption::BadDirection(..) | Corruption::SetWithoutEquals | Corruption::SetEmptyName(_) | Corruption::SetDuplicate);
         let headers_style = case.cfg.out == 1 || case.cfg.out_opts.iter().any(|o| o == "--headers") || matches!(&case.corruption, Corruption::CsvWithGroup | Corruption::CsvWithoutSelection);
